@@ -275,6 +275,8 @@ def check(run):
                        "templates; observed after EVERY event: listings of conf.d and stream-conf.d with content stamp, parsed "
                        "tls-passthrough-hosts.conf, keys of the Configurator's maps.  names: the seven naming functions on arbitrary byte strings. "
                        "startup: syntactic census of main.go / manager.go.  A case is distinct by its full input; a history is nontrivial when some step has a non-empty listing.")
+    from . import arbfiles
+    arbfiles.check_files(run, 80 if run.tier == "quick" else 1500)
     run.cov["trusted_base"] = TRUSTED
     run.assumptions += [
         "hosts of simultaneously served TLS-passthrough TransportServers are distinct (guaranteed upstream by host arbitration, C02); the generator never shares a host between two TransportServers",
@@ -285,6 +287,11 @@ def check(run):
 
 def replay(run, path):
     path = os.path.abspath(path)
+    d = json.load(open(path))
+    if d.get("cases") and "histories" in d["cases"][0]:
+        from . import arbfiles
+        arbfiles.replay_files(run, path)      # a controller-level history of the arb harness
+        return
     run.tier = "replay"          # verdict files of this run must not overwrite the replay file being read
     cases = run_cases(run, ["-replay", path], "replay")
     wit = run_cases(run, ["-seed", "1", "-n", "0"], "replay_wit")
